@@ -66,7 +66,7 @@ func init() {
 	})
 	register(&PropDef{
 		ID: "C02", Quick: 8000, Thorough: 400000, Level: "exploration",
-		Rule: "part A (even runs, rollback erasure): single-client histories in which ~35% of the transactions end in an error (bodies mix successful and failing inserts, updates, merges, deletes, key operations over several blocks) run on collection A while twin B runs the same history without them; after every step Dump(A)==Dump(B)==model, nothing reaches the change stream for a rolled-back transaction; part B (odd runs, isolation): 1-3 writers park inside their bodies and inside their commits while 1-2 observers read the same rows, Range and Count; every value read under a read latch must equal the committed model state; " + ruleSeq,
+		Rule: "part A (even runs, rollback erasure): single-client histories in which ~35% of the transactions end in an error (bodies mix successful and failing inserts, updates, merges, deletes, key operations over several blocks) run on collection A while twin B runs the same history without them; after every step Dump(A)==Dump(B)==model, nothing reaches the change stream for a rolled-back transaction; in a fifth of the runs the writer of the change stream returns an error from some commit on (or once) and the transaction must be applied in full all the same; part B (odd runs, isolation): 1-3 writers park inside their bodies and inside their commits while 1-2 observers read the same rows, Range and Count; every value read under a read latch must equal the committed model state; " + ruleSeq,
 		Gen: func(seed uint64, run int, tier string) *Case {
 			p := seqProfile{minSteps: 4, maxSteps: 24, wTxn: 20, wCreateIndex: 1,
 				wInsert: 8, wAt: 8, wRange: 2, wDelete: 4, wDeleteAll: 1, wKey: 10,
@@ -124,7 +124,7 @@ func init() {
 	})
 	register(&PropDef{
 		ID: "C04", Quick: 8000, Thorough: 300000, Level: "exploration",
-		Rule: "single-client histories over sparse/dense/multi-block layouts with reused offsets and rows lacking columns; read transactions run generated chains of With/Without/Union/WithUnion/WithValue/WithInt/WithUint/WithFloat/WithString (indexes, value columns, missing names) and Count, the exact Range visiting order, and Sum/Avg/Min/Max of every numeric type are compared with set algebra evaluated on the model; every third run (part B) runs the filter chains from reader threads while 1-3 writers commit to the filtered columns and indexes over several blocks: the visited offsets must equal the set algebra evaluated block by block on the model states captured at the moments the library took each block's read latch; " + ruleSeq,
+		Rule: "single-client histories over sparse/dense/multi-block layouts with reused offsets and rows lacking columns; read transactions run generated chains of With/Without/Union/WithUnion/WithValue/WithInt/WithUint/WithFloat/WithString (indexes, value columns, missing names) and Count, the exact Range visiting order, and Sum/Avg/Min/Max of every numeric type are compared with set algebra evaluated on the model; every third run (part B) runs the filter chains from reader threads while 1-3 writers commit to the filtered columns and indexes over several blocks: the visited offsets must equal the set algebra evaluated block by block on the model states captured at the moments the library took each block's read latch, and Sum/Avg/Min/Max over that selection must be explained by choosing, per block, one of the committed states the block went through during the call; " + ruleSeq,
 		Gen: func(seed uint64, run int, tier string) *Case {
 			p := seqProfile{minSteps: 5, maxSteps: 28, wTxn: 20, wCreateIndex: 2, wDropIndex: 1,
 				wInsert: 7, wAt: 6, wRange: 8, wDelete: 3, wDeleteAll: 2, wCount: 8, wAgg: 8,
@@ -150,7 +150,7 @@ func init() {
 	concStub := []string{"thread scheduler (real goroutines released one at a time at the repo hooks and, in the lock-instrumented scratch copy, before every Lock/RLock of the library; enabledness from the real latch and mutex words)", "link: FIFO with seeded delay in front of the real commit.Channel", "disk: in-memory SimFile/SimReader under the real commit.Log and Snapshot/Restore"}
 	register(&PropDef{
 		ID: "C06", Quick: 12000, Thorough: 1000000, Level: "exploration",
-		Rule: "2-5 concurrent writer threads (all column kinds, inserts with offset reuse, deletes, merges, multi-block transactions) on a primary whose every commit is tapped inside the block latch and forwarded to a real commit.Channel (consumed by an applier thread after a seeded link delay and replayed on REPLICA-C) and to a real commit.Log on a SimFile (replayed on REPLICA-L through a chunking reader); in odd runs a snapshotter thread takes snapshots meanwhile; schedule drawn per run from uniform/sticky/PCT/round-robin/phase-biased strategies over all hook points; at quiescence Dump(primary)==Dump(REPLICA-C)==Dump(REPLICA-L)==model; non-trivial = at least one commit and at least one scheduling decision with more than one enabled thread; distinct = distinct (interleaving signature, end state)",
+		Rule: "2-5 concurrent writer threads (all column kinds, inserts with offset reuse, deletes, merges, multi-block transactions) on a primary whose every commit is tapped inside the block latch and forwarded to a real commit.Channel (consumed by an applier thread after a seeded link delay and replayed on REPLICA-C) and to a real commit.Log on a SimFile (replayed on REPLICA-L through a chunking reader); in odd runs a snapshotter thread takes snapshots meanwhile; schedule drawn per run from uniform/sticky/PCT/round-robin/phase-biased strategies over all hook points; at quiescence Dump(primary)==Dump(REPLICA-C)==Dump(REPLICA-L)==model; every 16th run is the stalled-consumer world: single-client history inside a testing/synctest bubble whose stream goes into a real commit.Channel of capacity 1-8 read by a consumer that is away 50 ms..1 h (fake clock) before every k-th receive; once it has drained the channel nothing may be missing and the replica must equal the model; non-trivial = at least one commit and at least one scheduling decision with more than one enabled thread; distinct = distinct (interleaving signature, end state)",
 		Gen: func(seed uint64, run int, tier string) *Case {
 			if run%16 == 13 {
 				return genStalled("C06", seed, run) // fault: the consumer of the change stream stalls
@@ -180,7 +180,7 @@ func init() {
 	})
 	register(&PropDef{
 		ID: "C10", Quick: 12000, Thorough: 600000, Level: "exploration",
-		Rule: "writers updating 1-4 columns of the same stable rows (also multi-block) park at the three in-commit hooks while holding the write latch; readers use QueryAt, Range and yield between two column reads inside one callback while holding the read latch; oracle: every value read inside a callback equals the model's committed state, which changes atomically per (transaction, block) under the write latch, so any mixture of two committed states of a row is a mismatch; non-trivial = at least one commit and one real scheduling choice; distinct = distinct (interleaving signature, end state)",
+		Rule: "writers updating 1-4 columns of the same stable rows (also multi-block) park at the three in-commit hooks while holding the write latch; readers use QueryAt (also positioned on offsets that hold no row: the one the next insert is handed, or one reserved by an insert in flight, which must show nothing and stay that way until the callback returns), Range and yield between two column reads inside one callback while holding the read latch; oracle: every value read inside a callback equals the model's committed state, which changes atomically per (transaction, block) under the write latch, so any mixture of two committed states of a row is a mismatch; non-trivial = at least one commit and one real scheduling choice; distinct = distinct (interleaving signature, end state)",
 		Gen: func(seed uint64, run int, tier string) *Case {
 			prof := concProfile{minWriters: 1, maxWriters: 3, minReaders: 1, maxReaders: 3, maxTxns: 3, maxOps: 3,
 				wUpdate: 10, wMerge: 3, wInsert: 3, wDeleteOwn: 3, wRangeRead: 5, wRangeWrite: 2, wPointRead: 6,
@@ -197,7 +197,7 @@ func init() {
 	})
 	register(&PropDef{
 		ID: "C15", Quick: 10000, Thorough: 600000, Level: "exploration",
-		Rule: "same world as C06 without replicas (in odd runs a snapshotter thread takes snapshots meanwhile, so commits also go to the snapshot recorder); oracle on the recording logger: exactly one commit per (committed transaction, block it changed), nothing for rolled-back, read-only or failing-insert-only transactions, ids distinct and non-zero, per block strictly increasing in the order the commits were applied (= reached the logger), decoded operations equal the issued ones; non-trivial = at least one commit and one real scheduling choice; distinct = distinct (interleaving signature, end state)",
+		Rule: "same world as C06 without replicas (in odd runs a snapshotter thread takes snapshots meanwhile, so commits also go to the snapshot recorder); oracle on the recording logger: exactly one commit per (committed transaction, block it changed), nothing for rolled-back, read-only or failing-insert-only transactions, ids distinct and non-zero, per block strictly increasing in the order the commits were applied (= reached the logger), decoded operations equal the issued ones; every 16th run is the stalled-consumer world of C06 (nothing emitted may be lost however long the consumer of a small commit.Channel is away); non-trivial = at least one commit and one real scheduling choice; distinct = distinct (interleaving signature, end state)",
 		Gen: func(seed uint64, run int, tier string) *Case {
 			if run%16 == 13 {
 				return genStalled("C15", seed, run) // fault: the consumer of the change stream stalls
@@ -238,7 +238,7 @@ func init() {
 	})
 	register(&PropDef{
 		ID: "C13", Quick: 800, Thorough: 12000, Level: "fault_enumeration", Unit: "fault_points",
-		Rule: "histories: every 25th run logs one transaction that alternates between two full 16K blocks (two commits above 1 MiB each, several s2 frames, 16K shard headers per buffer) and cuts the log at every frame boundary +-2; otherwise 1-3 writers commit while a snapshotter thread takes 1-2 snapshots (so that snapshots carry a log tail recorded under concurrent commits) and every commit is also serialized to a commit.Log on a SimFile; crash points per stream: every byte prefix while the stream is below the tier's bound (quick 2 KiB, thorough 64 KiB), otherwise every recorded write boundary +-2 plus a seeded sample; at a third of the points a read error replaces EOF, a third of the restores read through 1/5/64-byte chunks; oracle: Restore/Range return within 10 s without panic, a nil Restore leaves a state equal to the complete state part plus some prefix of the logged commits (reference states rebuilt by appending j commits to a fresh log), Range delivers a prefix of the original commits, each identical; evaluations = fault points; distinct = distinct (interleaving, end state) of the producing histories",
+		Rule: "histories: every 25th run logs one transaction that alternates between two full 16K blocks (two commits above 1 MiB each, several s2 frames, 16K shard headers per buffer) and cuts the log at every frame boundary +-2; otherwise 1-3 writers commit while a snapshotter thread takes 1-2 snapshots (so that snapshots carry a log tail recorded under concurrent commits) and every commit is also serialized to a commit.Log on a SimFile; in a quarter of the runs the destination of the commit log fails a write while the history runs (a whole call or in the middle of one; once or from then on): the file must then hold a prefix, in the order the log took them, of the commits handed to it, containing every commit acknowledged before the first failure; crash points per stream: every byte prefix while the stream is below the tier's bound (quick 2 KiB, thorough 64 KiB), otherwise every recorded write boundary +-2 plus a seeded sample; at a third of the points a read error replaces EOF, a third of the restores read through 1/5/64-byte chunks; oracle: Restore/Range return within 10 s without panic, a nil Restore leaves a state equal to the complete state part plus some prefix of the logged commits (reference states rebuilt by appending j commits to a fresh log), Range delivers a prefix of the original commits, each identical; evaluations = fault points; distinct = distinct (interleaving, end state) of the producing histories",
 		Gen: func(seed uint64, run int, tier string) *Case {
 			if run%25 == 24 {
 				// commits above 1 MiB (several s2 frames, 16K shard headers per buffer)
@@ -418,7 +418,7 @@ func init() {
 	})
 	register(&PropDef{
 		ID: "C17", Quick: 12000, Thorough: 800000, Level: "exploration",
-		Rule: "runs inside a testing/synctest bubble: the collection's own vacuum goroutine runs on the fake clock and becomes one more simulated thread the first time it reaches a hook, so cleanup passes interleave at every hook with 1-3 writers that SetTTL (0.5..100 intervals, 1 h), Extend, delete and update unrelated columns of the same rows (a third of the rows never get a TTL), and readers; only the scheduler advances time (clock pseudo-thread: just before / exactly at / just after a tick, thirds, jumps over several ticks; cleanup interval 1 ms..10 s); oracles: every row the vacuum deletes (seen by the tap inside the block latch) must be live, hold a deadline, and that deadline must be in the past; when the vacuum is back at its ticker every row whose passed deadline was committed before that pass started must be gone; Row.TTL() equals deadline minus fake now; after the last clock fault three more intervals must remove everything overdue; the deadline column is identical on a replica fed the stream and after snapshot/restore; non-trivial = at least one cleanup pass and one commit; distinct = distinct (interleaving signature, end state)",
+		Rule: "runs inside a testing/synctest bubble: the collection's own vacuum goroutine runs on the fake clock and becomes one more simulated thread the first time it reaches a hook, so cleanup passes interleave at every hook with 1-3 writers that SetTTL (0.5..100 intervals, 1 h; through Row.SetTTL and through the txn.TTL() accessor), take the time-to-live away again (SetTTL/Set of zero or a negative duration), Extend, delete and update unrelated columns of the same rows (a third of the rows never get a TTL; in some insert-flavour runs the expiring rows sit behind a full 16K block of rows that all carry a far deadline), and readers; only the scheduler advances time (clock pseudo-thread: just before / exactly at / just after a tick, thirds, jumps over several ticks; cleanup interval 1 ms..10 s); oracles: every row the vacuum deletes (seen by the tap inside the block latch) must be live, hold a deadline, and that deadline must be in the past; when the vacuum is back at its ticker every row whose passed deadline was committed before that pass started must be gone; Row.TTL() equals deadline minus fake now; after the last clock fault three more intervals must remove everything overdue; the deadline column is identical on a replica fed the stream and after snapshot/restore; non-trivial = at least one cleanup pass and one commit; distinct = distinct (interleaving signature, end state)",
 		Gen:  func(seed uint64, run int, tier string) *Case { return genTTL(seed, run) },
 		Exec: runTTL,
 		Real: append(append([]string{}, realComponents...), "the collection's vacuum goroutine and its time.Ticker (real code on the fake clock)"),
@@ -426,7 +426,7 @@ func init() {
 	})
 	register(&PropDef{
 		ID: "C18", Quick: 2200, Thorough: 60000, Level: "exploration", NoMinimise: true,
-		Rule: "race mode: the simulator is built with -race and the baton is passed through raw pipe system calls from //go:norace functions, so the detector sees no happens-before edge between simulated threads except the library's own synchronisation; 3-6 threads (writers inserting across a block boundary, updating, merging, deleting; readers with point reads, filtered Range, aggregates, key lookups; snapshots; restores into other collections; index and trigger creation/drop) run under a serialised, recorded schedule; oracles: race detector reports whose two accesses lie in the library or its data-structure dependencies (signature = unordered pair of innermost such frames), deadlock (no thread enabled given the real latch words), hang inside package sync, panics; non-trivial = at least one scheduling decision with more than one enabled thread; distinct = distinct interleaving signature",
+		Rule: "race mode: the simulator is built with -race and the baton is passed through raw pipe system calls from //go:norace functions, so the detector sees no happens-before edge between simulated threads except the library's own synchronisation; 3-6 threads (writers inserting across a block boundary, updating, merging, deleting; readers with point reads, filtered Range, aggregates, key lookups; snapshots; restores into other collections; index and trigger creation/drop) run under a serialised, recorded schedule; oracles: race detector reports whose two accesses lie in the library or its data-structure dependencies (signature = unordered pair of innermost such frames; a report whose two accesses lie in a column's Apply and in the growth of all columns for a new block, which that column's own lock keeps apart, is kept distinct from the known reader-side growth finding), deadlock (no thread enabled given the real latch words), hang inside package sync, panics; non-trivial = at least one scheduling decision with more than one enabled thread; distinct = distinct interleaving signature",
 		Gen:  func(seed uint64, run int, tier string) *Case { return genRace(seed, run) },
 		Exec: runRace,
 		Real: append(append([]string{}, realComponents...), "Go race detector (ThreadSanitizer runtime)"),
@@ -468,7 +468,7 @@ func init() {
 	})
 	register(&PropDef{
 		ID: "C12", Quick: 10000, Thorough: 600000, Level: "exploration",
-		Rule: "part A (even runs): single-client histories of InsertKey/UpsertKey/QueryKey/DeleteKey/SetKey over a 3-6 key alphabet (forcing repeats), several key operations per transaction, rollbacks, restarts; every return value is judged against the committed key map at issue time and after every step the key-map invariants (one live row per key, lookup reaches exactly that row, deleted/re-keyed keys do not resolve) are checked through QueryKey probes of the whole alphabet; part B (odd runs): 2-4 threads issue key operations concurrently (hook between the existence check and the insert), return values judged when no commit is in flight, one-live-row-per-key checked the moment each key write commits; " + ruleSeq,
+		Rule: "part A (even runs): single-client histories of InsertKey/UpsertKey/QueryKey/DeleteKey/SetKey over a 3-6 key alphabet (forcing repeats), several key operations per transaction (also a draft key set inside the callback of InsertKey/UpsertKey and replaced by the key of the call in the same commit), rollbacks, restarts; every return value is judged against the committed key map at issue time and after every step the key-map invariants (one live row per key, lookup reaches exactly that row, deleted/re-keyed keys do not resolve) are checked through QueryKey probes of the whole alphabet; part B (odd runs): 2-4 threads issue key operations concurrently (hook between the existence check and the insert), return values judged when no commit is in flight, one-live-row-per-key checked the moment each key write commits; " + ruleSeq,
 		Gen: func(seed uint64, run int, tier string) *Case {
 			p := seqProfile{minSteps: 6, maxSteps: 36, wTxn: 20, wRestart: 1, wCreateIndex: 1,
 				wAt: 4, wRange: 3, wCount: 1, wDelete: 3, wKey: 20,
